@@ -1,1 +1,435 @@
+/-
+Lemmas for C18: the fuel-indexed builder `Model.build`/`Model.buildAll` against the grammar
+`Spec.Builds`/`Spec.BuildsAll`. `tagDataType` is never unfolded; only the three cases
+`= 0`, `= 14`, neither are distinguished.
+
+Fuel accounting: every nesting level costs two units (`build → buildAll → build`), so
+`build` needs `2 * args.length` and `buildAll` needs `2 * args.length + 1`.
+-/
+import Rscp.Model.Vocab
+import Rscp.Model.Builder
+import Rscp.Spec.Frame
+import Rscp.Snapshot.Vocab
 import Rscp.Spec.Builder
+namespace Rscp.Lemmas.Builder
+open Rscp Rscp.Model Rscp.Spec
+
+theorem cNone : Gen.C.None = 0 := rfl
+theorem cContainer : Gen.C.Container = 14 := rfl
+
+/-- what `build` makes of the result of the container loop -/
+def contWrap (t : Nat) : Res (List Msg) → Res (Msg × List Arg)
+  | .ok ms => .ok (.mk t 14 (.msgs ms), [])
+  | .err e => .err e
+  | .panic => .panic
+
+/-- how `buildAll` continues after one `build` -/
+def allStep (f : Nat) (acc : List Msg) : Res (Msg × List Arg) → Res (List Msg)
+  | .ok (m, r) => buildAll f r (acc ++ [m])
+  | .err e => .err e
+  | .panic => .panic
+
+/-! ### equations of `build` on a leading tag, by the three classes of data type -/
+
+theorem build_zero (args : List Arg) : build 0 args = .panic := by
+  cases args <;> rfl
+
+theorem build_nil (f : Nat) : build (f + 1) [] = .err .eos := rfl
+
+theorem build_dt (f d : Nat) (rest : List Arg) : build (f + 1) (.dtConst d :: rest) = .err .validTag := rfl
+
+theorem build_val (f : Nat) (v : Val) (rest : List Arg) : build (f + 1) (.val v :: rest) = .err .validTag := rfl
+
+theorem build_none (f t : Nat) (rest : List Arg) (h : tagDataType t = 0) :
+    build (f + 1) (.tag t :: rest) = .ok (.mk t 0 .nil, rest) := by
+  simp [build, h, cNone]
+
+theorem build_container (f t : Nat) (rest : List Arg) (h : tagDataType t = 14) :
+    build (f + 1) (.tag t :: rest) = contWrap t (buildAll f rest []) := by
+  simp only [build, h, cNone, cContainer, contWrap]
+  cases buildAll f rest [] <;> simp
+
+theorem build_leaf_nil (f t : Nat) (h0 : tagDataType t ≠ 0) (h14 : tagDataType t ≠ 14) :
+    build (f + 1) [.tag t] = .err .missingValue := by
+  simp [build, h0, h14, cNone, cContainer]
+
+theorem build_leaf_tag (f t t' : Nat) (rest : List Arg) (h0 : tagDataType t ≠ 0) (h14 : tagDataType t ≠ 14) :
+    build (f + 1) (.tag t :: .tag t' :: rest) = .err .typeMismatch := by
+  simp [build, h0, h14, cNone, cContainer]
+
+theorem build_leaf_dt (f t d : Nat) (rest : List Arg) (h0 : tagDataType t ≠ 0) (h14 : tagDataType t ≠ 14) :
+    build (f + 1) (.tag t :: .dtConst d :: rest) = .err .typeMismatch := by
+  simp [build, h0, h14, cNone, cContainer]
+
+theorem build_leaf_val (f t : Nat) (v : Val) (rest : List Arg) (h0 : tagDataType t ≠ 0) (h14 : tagDataType t ≠ 14) :
+    build (f + 1) (.tag t :: .val v :: rest) = .ok (.mk t (tagDataType t) v, rest) := by
+  simp [build, h0, h14, cNone, cContainer]
+
+theorem buildAll_zero (args : List Arg) (acc : List Msg) : buildAll 0 args acc = .panic := by
+  cases args <;> rfl
+
+theorem buildAll_nil (f : Nat) (acc : List Msg) : buildAll (f + 1) [] acc = .ok acc := rfl
+
+theorem buildAll_cons (f : Nat) (a : Arg) (rest : List Arg) (acc : List Msg) :
+    buildAll (f + 1) (a :: rest) acc = allStep f acc (build f (a :: rest)) := by
+  simp only [buildAll, allStep]
+  cases build f (a :: rest) <;> simp
+
+/-! ### the grammar consumes at least one argument -/
+
+theorem builds_length {args : List Arg} {m : Msg} {rest : List Arg} (h : Builds args m rest) :
+    rest.length < args.length := by
+  cases h <;> simp <;> omega
+
+/-! ### soundness: whatever the builder returns (with any fuel) the grammar derives -/
+
+theorem sound : ∀ f : Nat,
+    (∀ args m r, build f args = .ok (m, r) → Builds args m r) ∧
+    (∀ args acc ms, buildAll f args acc = .ok ms → ∃ ms', ms = acc ++ ms' ∧ BuildsAll args ms') := by
+  intro f
+  induction f with
+  | zero =>
+    refine ⟨?_, ?_⟩
+    · intro args m r h; rw [build_zero] at h; cases h
+    · intro args acc ms h; rw [buildAll_zero] at h; cases h
+  | succ f ih =>
+    obtain ⟨ihB, ihA⟩ := ih
+    refine ⟨?_, ?_⟩
+    · intro args m r h
+      match args, h with
+      | [], h => rw [build_nil] at h; cases h
+      | .dtConst d :: rest, h => rw [build_dt] at h; cases h
+      | .val v :: rest, h => rw [build_val] at h; cases h
+      | .tag t :: rest, h =>
+        by_cases h0 : tagDataType t = 0
+        · rw [build_none f t rest h0] at h
+          cases h
+          exact Builds.none _ _ h0
+        · by_cases h14 : tagDataType t = 14
+          · rw [build_container f t rest h14] at h
+            cases hA : buildAll f rest [] with
+            | ok ms =>
+              rw [hA] at h
+              simp only [contWrap] at h
+              cases h
+              obtain ⟨ms', hms, hb⟩ := ihA _ [] ms hA
+              simp at hms
+              subst hms
+              exact Builds.container _ _ _ h14 hb
+            | err e => rw [hA] at h; cases h
+            | panic => rw [hA] at h; cases h
+          · match rest, h with
+            | [], h => rw [build_leaf_nil f t h0 h14] at h; cases h
+            | .tag t' :: rest', h => rw [build_leaf_tag f t t' rest' h0 h14] at h; cases h
+            | .dtConst d :: rest', h => rw [build_leaf_dt f t d rest' h0 h14] at h; cases h
+            | .val v :: rest', h =>
+              rw [build_leaf_val f t v rest' h0 h14] at h
+              cases h
+              exact Builds.leaf _ _ _ h0 h14
+    · intro args acc ms h
+      match args, h with
+      | [], h =>
+        rw [buildAll_nil] at h
+        cases h
+        exact ⟨[], by simp, BuildsAll.nil⟩
+      | a :: rest, h =>
+        rw [buildAll_cons] at h
+        cases hB : build f (a :: rest) with
+        | ok p =>
+          obtain ⟨m, r⟩ := p
+          rw [hB] at h
+          simp only [allStep] at h
+          obtain ⟨ms', hms, hb⟩ := ihA r (acc ++ [m]) ms h
+          refine ⟨m :: ms', by simp [hms], ?_⟩
+          exact BuildsAll.cons (a :: rest) r m ms' (ihB _ _ _ hB) hb
+        | err e => rw [hB] at h; cases h
+        | panic => rw [hB] at h; cases h
+
+theorem build_sound {f : Nat} {args : List Arg} {m : Msg} {r : List Arg} (h : build f args = .ok (m, r)) :
+    Builds args m r := (sound f).1 args m r h
+
+/-! ### completeness: with enough fuel the builder finds every derivation -/
+
+theorem complete : ∀ f : Nat,
+    (∀ args m r, Builds args m r → 2 * args.length ≤ f → build f args = .ok (m, r)) ∧
+    (∀ args ms acc, BuildsAll args ms → 2 * args.length + 1 ≤ f → buildAll f args acc = .ok (acc ++ ms)) := by
+  intro f
+  induction f with
+  | zero =>
+    refine ⟨?_, ?_⟩
+    · intro args m r h hf
+      have := builds_length h
+      omega
+    · intro args ms acc h hf; omega
+  | succ f ih =>
+    obtain ⟨ihB, ihA⟩ := ih
+    refine ⟨?_, ?_⟩
+    · intro args m r h hf
+      cases h with
+      | none t rest h0 => exact build_none f _ _ h0
+      | leaf t v rest h0 h14 => exact build_leaf_val f _ _ _ h0 h14
+      | container t rest ms h14 hc =>
+        rw [build_container f t rest h14]
+        have := ihA rest ms [] hc (by simp at hf; omega)
+        rw [this]
+        simp [contWrap]
+    · intro args ms acc h hf
+      cases h with
+      | nil => simp [buildAll_nil]
+      | cons _ rest m ms' hb ht =>
+        have hlen := builds_length hb
+        match args, hb, hf, hlen with
+        | [], _, _, hlen => simp at hlen
+        | a :: tl, hb, hf, hlen =>
+          rw [buildAll_cons]
+          rw [ihB (a :: tl) m rest hb (by omega)]
+          simp only [allStep]
+          rw [ihA rest ms' (acc ++ [m]) ht (by simp at hlen; simp at hf; omega)]
+          simp
+
+theorem build_complete {f : Nat} {args : List Arg} {m : Msg} {r : List Arg} (h : Builds args m r)
+    (hf : 2 * args.length ≤ f) : build f args = .ok (m, r) := (complete f).1 args m r h hf
+
+/-! ### no panic with enough fuel -/
+
+theorem nopanic : ∀ f : Nat,
+    (∀ args, 2 * args.length ≤ f → 1 ≤ f → build f args ≠ .panic) ∧
+    (∀ args acc, 2 * args.length + 1 ≤ f → buildAll f args acc ≠ .panic) := by
+  intro f
+  induction f with
+  | zero =>
+    refine ⟨?_, ?_⟩
+    · intro args _ h; omega
+    · intro args acc h; omega
+  | succ f ih =>
+    obtain ⟨ihB, ihA⟩ := ih
+    refine ⟨?_, ?_⟩
+    · intro args hf _
+      match args, hf with
+      | [], _ => rw [build_nil]; intro h; cases h
+      | .dtConst d :: rest, _ => rw [build_dt]; intro h; cases h
+      | .val v :: rest, _ => rw [build_val]; intro h; cases h
+      | .tag t :: rest, hf =>
+        by_cases h0 : tagDataType t = 0
+        · rw [build_none f t rest h0]; intro h; cases h
+        · by_cases h14 : tagDataType t = 14
+          · rw [build_container f t rest h14]
+            have := ihA rest [] (by simp at hf; omega)
+            cases hA : buildAll f rest [] with
+            | ok ms => simp [contWrap]
+            | err e => simp [contWrap]
+            | panic => exact absurd hA this
+          · match rest with
+            | [] => rw [build_leaf_nil f t h0 h14]; intro h; cases h
+            | .tag t' :: rest' => rw [build_leaf_tag f t t' rest' h0 h14]; intro h; cases h
+            | .dtConst d :: rest' => rw [build_leaf_dt f t d rest' h0 h14]; intro h; cases h
+            | .val v :: rest' => rw [build_leaf_val f t v rest' h0 h14]; intro h; cases h
+    · intro args acc hf
+      match args, hf with
+      | [], _ => rw [buildAll_nil]; intro h; cases h
+      | a :: rest, hf =>
+        rw [buildAll_cons]
+        have hnB := ihB (a :: rest) (by omega) (by simp at hf; omega)
+        cases hB : build f (a :: rest) with
+        | ok p =>
+          obtain ⟨m, r⟩ := p
+          simp only [allStep]
+          have hlen := builds_length (build_sound hB)
+          exact ihA r (acc ++ [m]) (by simp at hlen; simp at hf; omega)
+        | err e => simp [allStep]
+        | panic => exact absurd hB hnB
+
+/-! ### every error is a documented one, whatever the fuel -/
+
+def Documented (e : ErrClass) : Prop := e = .eos ∨ e = .validTag ∨ e = .missingValue ∨ e = .typeMismatch
+
+theorem errors : ∀ f : Nat,
+    (∀ args e, build f args = .err e → Documented e) ∧
+    (∀ args acc e, buildAll f args acc = .err e → Documented e) := by
+  intro f
+  induction f with
+  | zero =>
+    refine ⟨?_, ?_⟩
+    · intro args e h; rw [build_zero] at h; cases h
+    · intro args acc e h; rw [buildAll_zero] at h; cases h
+  | succ f ih =>
+    obtain ⟨ihB, ihA⟩ := ih
+    refine ⟨?_, ?_⟩
+    · intro args e h
+      match args, h with
+      | [], h => rw [build_nil] at h; cases h; exact Or.inl rfl
+      | .dtConst d :: rest, h => rw [build_dt] at h; cases h; exact Or.inr (Or.inl rfl)
+      | .val v :: rest, h => rw [build_val] at h; cases h; exact Or.inr (Or.inl rfl)
+      | .tag t :: rest, h =>
+        by_cases h0 : tagDataType t = 0
+        · rw [build_none f t rest h0] at h; cases h
+        · by_cases h14 : tagDataType t = 14
+          · rw [build_container f t rest h14] at h
+            cases hA : buildAll f rest [] with
+            | ok ms => rw [hA] at h; cases h
+            | err e' => rw [hA] at h; cases h; exact ihA rest [] _ hA
+            | panic => rw [hA] at h; cases h
+          · match rest, h with
+            | [], h => rw [build_leaf_nil f t h0 h14] at h; cases h; exact Or.inr (Or.inr (Or.inl rfl))
+            | .tag t' :: rest', h =>
+              rw [build_leaf_tag f t t' rest' h0 h14] at h; cases h; exact Or.inr (Or.inr (Or.inr rfl))
+            | .dtConst d :: rest', h =>
+              rw [build_leaf_dt f t d rest' h0 h14] at h; cases h; exact Or.inr (Or.inr (Or.inr rfl))
+            | .val v :: rest', h => rw [build_leaf_val f t v rest' h0 h14] at h; cases h
+    · intro args acc e h
+      match args, h with
+      | [], h => rw [buildAll_nil] at h; cases h
+      | a :: rest, h =>
+        rw [buildAll_cons] at h
+        cases hB : build f (a :: rest) with
+        | ok p =>
+          obtain ⟨m, r⟩ := p
+          rw [hB] at h
+          exact ihA r (acc ++ [m]) e h
+        | err e' => rw [hB] at h; cases h; exact ihB _ _ hB
+        | panic => rw [hB] at h; cases h
+
+/-! ### more fuel never changes a result that is not a panic -/
+
+theorem mono_step : ∀ f : Nat,
+    (∀ args, build f args ≠ .panic → build (f + 1) args = build f args) ∧
+    (∀ args acc, buildAll f args acc ≠ .panic → buildAll (f + 1) args acc = buildAll f args acc) := by
+  intro f
+  induction f with
+  | zero =>
+    refine ⟨?_, ?_⟩
+    · intro args h; rw [build_zero] at h; exact absurd rfl h
+    · intro args acc h; rw [buildAll_zero] at h; exact absurd rfl h
+  | succ f ih =>
+    obtain ⟨ihB, ihA⟩ := ih
+    refine ⟨?_, ?_⟩
+    · intro args h
+      match args, h with
+      | [], _ => rfl
+      | .dtConst d :: rest, _ => rfl
+      | .val v :: rest, _ => rfl
+      | .tag t :: rest, h =>
+        by_cases h0 : tagDataType t = 0
+        · rw [build_none _ t rest h0, build_none _ t rest h0]
+        · by_cases h14 : tagDataType t = 14
+          · rw [build_container _ t rest h14] at h ⊢
+            rw [build_container _ t rest h14]
+            have : buildAll f rest [] ≠ .panic := by
+              intro hp; rw [hp] at h; exact h rfl
+            rw [ihA rest [] this]
+          · match rest with
+            | [] => rw [build_leaf_nil _ t h0 h14, build_leaf_nil _ t h0 h14]
+            | .tag t' :: rest' => rw [build_leaf_tag _ t t' rest' h0 h14, build_leaf_tag _ t t' rest' h0 h14]
+            | .dtConst d :: rest' => rw [build_leaf_dt _ t d rest' h0 h14, build_leaf_dt _ t d rest' h0 h14]
+            | .val v :: rest' => rw [build_leaf_val _ t v rest' h0 h14, build_leaf_val _ t v rest' h0 h14]
+    · intro args acc h
+      match args, h with
+      | [], _ => rfl
+      | a :: rest, h =>
+        rw [buildAll_cons] at h ⊢
+        rw [buildAll_cons]
+        have hB : build f (a :: rest) ≠ .panic := by
+          intro hp; rw [hp] at h; exact h rfl
+        rw [ihB _ hB]
+        cases hB' : build f (a :: rest) with
+        | ok p =>
+          obtain ⟨m, r⟩ := p
+          rw [hB'] at h
+          exact ihA r (acc ++ [m]) h
+        | err e => rfl
+        | panic => rfl
+
+theorem build_mono {f g : Nat} (hfg : f ≤ g) (args : List Arg) (h : build f args ≠ .panic) :
+    build g args = build f args := by
+  induction hfg with
+  | refl => rfl
+  | step _ ih => rw [(mono_step _).1 args (by rw [ih]; exact h), ih]
+
+/-! ### `createRequests` -/
+
+theorem go_ok : ∀ (lists : List (List Arg)) (ms : List Msg),
+    createRequests.go lists = .ok ms ↔ lists.map createRequest = ms.map .ok := by
+  intro lists
+  induction lists with
+  | nil =>
+    intro ms
+    cases ms <;> simp [createRequests.go]
+  | cons l ls ih =>
+    intro ms
+    unfold createRequests.go
+    rw [List.map_cons]
+    cases hl : createRequest l with
+    | ok m =>
+      cases hg : createRequests.go ls with
+      | ok ms' =>
+        have h1 := (ih ms').1 hg
+        cases ms with
+        | nil => simp
+        | cons m' ms'' =>
+          simp only [List.map_cons, List.cons.injEq, Res.ok.injEq]
+          constructor
+          · rintro ⟨rfl, rfl⟩; exact ⟨rfl, h1⟩
+          · rintro ⟨rfl, h2⟩
+            refine ⟨rfl, ?_⟩
+            have h3 := (ih ms'').2 h2
+            rw [hg] at h3
+            cases h3; rfl
+      | err e =>
+        cases ms with
+        | nil => simp
+        | cons m' ms'' =>
+          simp only [List.map_cons, List.cons.injEq, Res.ok.injEq]
+          constructor
+          · intro h; cases h
+          · rintro ⟨_, h2⟩
+            have h3 := (ih ms'').2 h2
+            rw [hg] at h3; cases h3
+      | panic =>
+        cases ms with
+        | nil => simp
+        | cons m' ms'' =>
+          simp only [List.map_cons, List.cons.injEq, Res.ok.injEq]
+          constructor
+          · intro h; cases h
+          · rintro ⟨_, h2⟩
+            have h3 := (ih ms'').2 h2
+            rw [hg] at h3; cases h3
+    | err e =>
+      cases ms with
+      | nil => simp
+      | cons m' ms'' => simp
+    | panic =>
+      cases ms with
+      | nil => simp
+      | cons m' ms'' => simp
+
+theorem go_err : ∀ (lists : List (List Arg)) (e : ErrClass), createRequests.go lists = .err e →
+    ∃ pre l post, lists = pre ++ l :: post ∧ createRequest l = .err e ∧ ∀ x ∈ pre, ∃ m, createRequest x = .ok m := by
+  intro lists
+  induction lists with
+  | nil => intro e h; simp [createRequests.go] at h
+  | cons l ls ih =>
+    intro e h
+    unfold createRequests.go at h
+    cases hl : createRequest l with
+    | ok m =>
+      rw [hl] at h
+      cases hg : createRequests.go ls with
+      | ok ms' => rw [hg] at h; cases h
+      | err e' =>
+        rw [hg] at h
+        cases h
+        obtain ⟨pre, l', post, hls, hl', hpre⟩ := ih _ hg
+        refine ⟨l :: pre, l', post, by simp [hls], hl', ?_⟩
+        intro x hx
+        rcases List.mem_cons.mp hx with rfl | hx
+        · exact ⟨m, hl⟩
+        · exact hpre x hx
+      | panic => rw [hg] at h; cases h
+    | err e' =>
+      rw [hl] at h
+      cases h
+      exact ⟨[], l, ls, rfl, hl, by simp⟩
+    | panic => rw [hl] at h; cases h
+
+end Rscp.Lemmas.Builder
